@@ -30,6 +30,10 @@ func main() {
 		os.Exit(runCrashEnum(os.Args[2:]))
 	case "fault-enum":
 		os.Exit(runFaultEnum(os.Args[2:]))
+	case "conc-stress":
+		os.Exit(runConcStress(os.Args[2:]))
+	case "conc-explore":
+		os.Exit(runConcExplore(os.Args[2:]))
 	case "hashfuzz":
 		os.Exit(runHashFuzz(os.Args[2:]))
 	case "reader-replay":
